@@ -63,7 +63,11 @@ func runC20(c *Ctx) {
 		})
 		isSort := func(n ast.Node) bool {
 			cl, ok := n.(*ast.CallExpr)
-			return ok && strings.HasPrefix(exprKey(cl.Fun), "sort.Slice") && len(cl.Args) == 2 && fieldSel(info, cl.Args[0], "shutdownOrderWorker")
+			if !ok || len(cl.Args) != 2 || !fieldSel(info, cl.Args[0], "shutdownOrderWorker") {
+				return false
+			}
+			k := exprKey(cl.Fun)
+			return strings.HasPrefix(k, "sort.Slice") || k == "slices.SortFunc" || k == "slices.SortStableFunc"
 		}
 		if len(appends) != 1 {
 			r.Fail("order/sorted-descending", key, f.P.posStr(f.Body.Pos()), fmt.Sprintf("expected one append to the shutdown-order list, found %d", len(appends)))
@@ -91,7 +95,34 @@ func runC20(c *Ctx) {
 						}
 					}
 					if rs, ok := lit.Body.List[0].(*ast.ReturnStmt); ok && len(rs.Results) == 1 && len(names) == 2 {
-						if rel, ok := relOf(rs.Results[0]); ok {
+						// slices.SortFunc(list, func(a, b string) int { return cmp.Compare(order(b), order(a)) }):
+						// a three-way comparison with the operands swapped sorts descending
+						res, neg := ast.Unparen(rs.Results[0]), false
+						if u, isNeg := res.(*ast.UnaryExpr); isNeg && u.Op == token.SUB {
+							res, neg = ast.Unparen(u.X), true
+						}
+						if cc, isCall := res.(*ast.CallExpr); isCall && rawKey(cc.Fun) == "cmp.Compare" && len(cc.Args) == 2 && !strings.HasPrefix(exprKey(cl.Fun), "sort.") {
+							mention := func(e ast.Expr, name string) bool {
+								hit := false
+								ast.Inspect(e, func(m ast.Node) bool {
+									if id, ok := m.(*ast.Ident); ok && id.Name == name {
+										hit = true
+									}
+									return !hit
+								})
+								return hit
+							}
+							l, rr := cc.Args[0], cc.Args[1]
+							if neg {
+								l, rr = rr, l
+							}
+							keyOK := strings.HasSuffix(exprKey(l), ".shutdownOrder") && strings.HasSuffix(exprKey(rr), ".shutdownOrder")
+							if keyOK && mention(l, names[1]) && !mention(l, names[0]) && mention(rr, names[0]) && !mention(rr, names[1]) {
+								cmp = "[j]].shutdownOrder < [i]].shutdownOrder" // descending
+							} else {
+								cmp = "cmp.Compare(" + exprKey(cc.Args[0]) + "," + exprKey(cc.Args[1]) + ")"
+							}
+						} else if rel, ok := relOf(rs.Results[0]); ok {
 							// rename the index parameters to i, j
 							ren := strings.NewReplacer("["+names[0]+"]", "[i]", "["+names[1]+"]", "[j]")
 							cmp = Rel{ren.Replace(rel.L), rel.Op, ren.Replace(rel.R)}.String()
